@@ -38,6 +38,10 @@ ASSUMPTIONS = [
 ]
 
 
+COMPONENTS_REAL_EXTRA = []
+COMPONENTS_SIM_EXTRA = ['in mode T the datamodel seam: FaultyDataModel forwards to the real Lua/Promela datamodel and fails seeded calls']
+
+
 class Context(object):
     def __init__(self, prop, tier, opts):
         self.opts = opts
